@@ -1,8 +1,93 @@
-(** Property C18 (statements only; proofs in Geom/*Proofs.v) -- placeholder while the proofs are written. *)
-From Coq Require Import List ZArith Bool.
-From CGV Require Import Base.PyBase Geom.IndexMap Geom.CoordDefs.
+(** Property C18 — the RDKit bridge keeps chemistry and puts coordinates on the right atoms.
+    ONLY statements, each closed by [exact]; proofs in Geom/IndexMapProofs.v, ForwardMapProofs.v, CoordProofs.v.
+
+    Claimed as PARTIAL:
+    proved      (a) index plumbing of networkx_to_rdkit / embed_3d_via_rdkit (which node receives which RDKit
+                    atom's position), for BOTH write-back shapes, the current one selected by the GENERATED
+                    [embed_write_mode];
+                (b) the bead average of forward_map_molecule over Q, for BOTH denominators, the current one
+                    selected by the GENERATED [fm_avg_mode]; own-atoms dependence over any carrier;
+                (c) control flow of rdkit_to_networkx's conformer branch given the GENERATED [r2n_pos_arg_bound].
+    NOT proved  (validated by execution only, tools/props/c18.py): element / charge / bond order / hydrogen
+                count through RDKit's C++, bonding distances after RDKit's embedding, numpy's float64
+                arithmetic (the float instance of ForwardMap is compared bit for bit on every run).
+    The full statement "for all orderings / all molecules with a conformer / all weights" is NOT provable for
+    the current code: [C18_embed_status], [C18_conformer_status], [C18_forward_map_status] contain the
+    refutations (known findings embed_index_not_key, r2n_conformer_unbound_name, fwd_weights_not_normalised). *)
+From Coq Require Import List ZArith Bool QArith.
+From CGV Require Import Base.PyBase Geom.Num Gen.GeomGen Geom.IndexMap Geom.ForwardMap Geom.CoordDefs
+     Geom.IndexMapProofs Geom.ForwardMapProofs Geom.CoordProofs.
 Import ListNotations.
 
-Theorem C18_node_to_idx_length : forall nodes, length (node_to_idx nodes) = length nodes.
-Proof. intros. unfold node_to_idx. rewrite combine_length, seq_length. apply Nat.min_id. Qed.
-Print Assumptions C18_node_to_idx_length.
+(** node_to_idx is the enumeration of the node list: RDKit atom i <-> i-th node *)
+Theorem C18_node_to_idx_enumerates : forall nodes k i, NoDup nodes ->
+  (own_atom nodes k = Some i <-> nth_error nodes i = Some k).
+Proof. exact own_atom_spec. Qed.
+
+(** enumeration-index write-back: every key receives the position of its own atom IFF the node list is
+    [0..n-1] in that order (and AddHs added no atom) *)
+Theorem C18_coords_on_own_atom_enum : forall nodes nrd, NoDup nodes ->
+  ((exists m, embed_model WriteByEnumIndex nodes nrd = Ok m /\ on_own_atoms nodes m)
+   <-> (nodes = iota (length nodes) /\ nrd = length nodes)).
+Proof. exact coords_on_own_atom_enum. Qed.
+
+(** node-key write-back: unconditional *)
+Theorem C18_coords_on_own_atom_nodekey : forall nodes nrd, NoDup nodes -> (length nodes <= nrd)%nat ->
+  exists m, embed_model WriteByNodeKey nodes nrd = Ok m /\ on_own_atoms nodes m.
+Proof. exact coords_on_own_atom_nodekey. Qed.
+
+(** the embedding clause for the code as generated NOW (partial + refuted, or full after the repair) *)
+Theorem C18_embed_status : embed_status embed_write_mode.
+Proof. exact (embed_status_all embed_write_mode). Qed.
+
+(** forward_map_molecule, /len(weights): translation-equivariant IFF the weights sum to their number *)
+Theorem C18_forward_map_translation_len : forall ws, ws <> [] ->
+  (equivariant DivByLen ws <-> sum_weights numQ ws == inject_Z (Z.of_nat (length ws))).
+Proof. exact forward_map_translation_len. Qed.
+(** /sum(weights): unconditional *)
+Theorem C18_forward_map_translation_sum : forall ws, ~ sum_weights numQ ws == 0 -> equivariant DivBySum ws.
+Proof. exact forward_map_translation_sum. Qed.
+Theorem C18_forward_map_status : fwd_status fm_avg_mode.
+Proof. exact (fwd_status_all fm_avg_mode). Qed.
+
+(** each bead depends only on the positions of its own atoms (any carrier, either denominator) *)
+Theorem C18_bead_uses_own_atoms : forall {M} (o : numops M) mode (pos pos' : Z -> res (@vec3 M)) ws,
+  (forall a, In a (map fst ws) -> pos a = pos' a) -> bead o mode pos ws = bead o mode pos' ws.
+Proof. exact @bead_uses_own_atoms. Qed.
+
+(** rdkit_to_networkx and conformers *)
+Theorem C18_conformer_status : r2n_status r2n_pos_arg_bound.
+Proof. exact (r2n_status_all r2n_pos_arg_bound). Qed.
+
+(** ---------- non-vacuity *)
+(* a node list outside the defect class, one inside it (the resolved molecule {[#A][#B]}.{#A=[$]CO,#B=[$]CC}) *)
+Example C18_nonvacuous_nodes :
+  NoDup [0; 1; 2]%Z /\ cls_index_not_key [0; 1; 2]%Z = false /\
+  NoDup witness_nodes /\ cls_index_not_key witness_nodes = true /\
+  embed_model WriteByEnumIndex witness_nodes 12 = Ok (map (fun k => (k, Z.to_nat k)) witness_nodes) /\
+  own_atom witness_nodes 5%Z = Some 2%nat /\
+  (exists m, embed_model WriteByNodeKey witness_nodes 12 = Ok m /\ on_own_atoms_b witness_nodes m = true).
+Proof.
+  split; [repeat (constructor; [cbn; intuition discriminate|]); constructor|]. split; [reflexivity|].
+  split; [unfold witness_nodes; repeat (constructor; [cbn; intuition discriminate|]); constructor|].
+  split; [reflexivity|]. split; [reflexivity|]. split; [reflexivity|]. eexists. split; vm_compute; reflexivity.
+Qed.
+(* non-unit weights whose sum equals their number: equivariant although the class "some weight <> 1" contains them *)
+Example C18_nonvacuous_weights :
+  let ws := [(0%Z, 1 # 2); (1%Z, 3 # 2)] in ws <> [] /\ equivariant DivByLen ws /\
+  veq (beadT DivByLen (fun k => (inject_Z k, 1, 0)) ws) (3 # 4, 1, 0).
+Proof.
+  cbn zeta. split; [discriminate|]. split.
+  - apply forward_map_translation_len; [discriminate|]. vm_compute. reflexivity.
+  - vm_compute. repeat split.
+Qed.
+
+Print Assumptions C18_node_to_idx_enumerates.
+Print Assumptions C18_coords_on_own_atom_enum.
+Print Assumptions C18_coords_on_own_atom_nodekey.
+Print Assumptions C18_embed_status.
+Print Assumptions C18_forward_map_translation_len.
+Print Assumptions C18_forward_map_translation_sum.
+Print Assumptions C18_forward_map_status.
+Print Assumptions C18_bead_uses_own_atoms.
+Print Assumptions C18_conformer_status.
